@@ -115,7 +115,9 @@ def run_all(tier, workdir):
             d = vlib.design_check("MC_SeqApi", cfg, os.path.join(workdir, "d-%s-%s" % (fam, unit)), timeout=900)
             designs.append({"config": cfg, "distinct": d["distinct"], "generated": d["generated"], "depth": d["depth"], "wall": d["wall"],
                             "coverage": d["coverage"]})
-            for mode in ("exh", "sim") + ((("shape:ShapeFmt4",) + (("shape:ShapeFmt5",) if tier == "thorough" else ())) if fam == "text" else ()):
+            shapes = {"text": ("shape:ShapeFmt4",) + (("shape:ShapeFmt5",) if tier == "thorough" else ()),
+                      "xml": ("shape:ShapeXml4",) + (("shape:ShapeXml5",) if tier == "thorough" else ())}.get(fam, ())
+            for mode in ("exh", "sim") + shapes:
                 sc, st = gen_family(fam, unit, tier, workdir, mode)
                 scheds += sc
                 gstats.append(st)
